@@ -321,6 +321,12 @@ class Annotator:
         else:
             self.uncontracted.append(label)
             self._obl(label + '#body', 'body', ['C05'], 'type invariant', fn)
+            # a hand-written impl may rebuild a value from the receiver's field (`Self(self.0.clone())`):
+            # the receiver is an existing value, so its type invariant may be used (ghost code only)
+            params = sc.s[fn.params_open + 1:fn.params_close]
+            if d.has_validation and re.match(r"\s*(&\s*('\w+\s+)?)?(mut\s+)?self\b", params):
+                by_ref = params.lstrip().startswith('&')
+                self.insert(fn.body_open + 1, '\n            proof { use_type_invariant(%s); }' % ('&*self' if by_ref else '&self'))
 
     specimpls: list
 
